@@ -906,3 +906,45 @@ def solve_repeat(tier="quick", seed=0, only=None):
             seen.add(f["label"])
             uniq.append(f)
     return result(cases, uniq, f"scenarios {names} x 6 penalty policies x controllers; 40 iterations")
+
+
+@native("native.solve.kkt_scaled", ["C01", "C04"])
+def solve_kkt_scaled(tier="quick", seed=0, only=None):
+    """bounded: the C01 oracle (independent dense KKT check of the USER's problem with the scaled tolerances) on
+    solves under custom power-of-two scalings (incl. non-zero objective weight) and the automatic scalings"""
+    use_repo()
+    from pygradflow.params import ScalingType
+    from pygradflow.scale import Scaling
+    from pygradflow.status import SolverStatus
+
+    rng = np.random.default_rng(11 + seed)
+    failures, cases = [], 0
+    S = scenarios()
+    names = ["qp_eq_box", "qp_ranged_fixed", "nlp_mixed", "qp_uncons_box"] if tier == "quick" else [n for n in S if n != "infeasible"]
+    for name in names:
+        mk, x0, y0 = S[name]
+        base = mk()
+        n, m = base.num_vars, base.num_cons
+        variants = [("custom", dict(vw=rng.integers(-2, 3, n), cw=rng.integers(-2, 3, m), ow=int(o))) for o in (0, 2, -1)]
+        if tier != "quick":
+            variants += [("custom", dict(vw=rng.integers(-3, 4, n), cw=rng.integers(-3, 4, m), ow=int(rng.integers(-3, 4)))) for _ in range(4)]
+        for kind, w in variants:
+            for ss in (["Symmetric"] if tier == "quick" else ["Symmetric", "Standard"]):
+                inp = dict(scenario=name, scaling=kind, var_weights=w["vw"].tolist(), cons_weights=w["cw"].tolist(), obj_weight=w["ow"], step_solver=ss)
+                if only is not None and only != inp:
+                    continue
+                sc = Scaling(w["vw"], w["cw"], w["ow"])
+                params = mk_params(scaling=sc, scaling_type=ScalingType.Custom, step_solver_type=enum("StepSolverType", ss), iteration_limit=300)
+                problem = mk()
+                rec = run(problem, params, x0, y0)
+                cases += 1
+                if rec.exc is not None or rec.result is None:
+                    continue
+                if rec.result.status == SolverStatus.Optimal:
+                    for lab, data in kkt_failures(problem, rec.result, params, scaling=sc):
+                        if not any(f["label"] == "C01:scaled:" + lab for f in failures):
+                            failures.append(dict(label="C01:scaled:" + lab, input=inp, observed=repr(data)[:300]))
+                bad = box_failures(rec, problem)
+                if bad and not any(f["label"] == "C05:scaled:evaluation_outside_box" for f in failures):
+                    failures.append(dict(label="C05:scaled:evaluation_outside_box", input=inp, observed=repr(bad[0])[:200]))
+    return result(cases, failures, f"scenarios {names} x custom scalings (weights in [-2,2], obj_weight in {{0,2,-1}})")
